@@ -225,6 +225,16 @@ def install():
              if self.decision_matrix[ti, si]]
         vis = [[T(t), S(s)] for ti, t in enumerate(self.target_list) for si, s in enumerate(self.sensor_list)
                if self.visibility_matrix[ti, si]]
+        # what each (target, sensor) pair of this engine would command: the unit slant-range vector from the sensor to the
+        # PREDICTED estimate, computed here in the driver from the agents' current states (works with real Ray as well)
+        for t_ in self.target_list:
+            est = r.app.estimate_agents.get(t_)
+            for s_ in self.sensor_list:
+                sa = r.app.sensor_agents.get(s_)
+                if est is None or sa is None:
+                    continue
+                sez = getSlantRangeVector(sa.eci_state, est.eci_state, sa.datetime_epoch)
+                r.expect_bore[(r.k, s_, t_)] = np.asarray(sez[:3], dtype=float) / np.linalg.norm(sez[:3])
         r.emit("Decide", decision=d, vis=vis)
 
     _wrap(CentralizedTaskingEngine, "generateTasking", None, after_decide)
@@ -262,9 +272,6 @@ def install():
         r = _REC[0]
         if r is not None:
             r.primary = target_agent.simulation_id
-            sez = getSlantRangeVector(self.host.eci_state, estimate_eci, self.host.datetime_epoch)
-            r.expect_bore[(r.k, self.host.simulation_id, target_agent.simulation_id)] = \
-                np.asarray(sez[:3], dtype=float) / np.linalg.norm(sez[:3])
             if r.env is not None and not r.env.serendipity:
                 background_agents = []
         return orig_collect(self, estimate_eci, target_agent, background_agents)
